@@ -145,6 +145,51 @@ func c15(c *Ctx) {
 			}
 		}
 	})
+	c.Ob("client-dormancy", "R3", "client keepalive dormancy: the goroutine goes dormant (flag set, cond.Wait) only with no active stream and PermitWithoutStream off, and clears the flag when it resumes; every new stream (and Close) signals the condition variable whenever the flag is set — the signal is skipped only when the goroutine is not dormant, under no further condition", 4, func() {
+		fDor := c.field(tr, "http2Client", "kpDormant")
+		fAct := c.field(tr, "http2Client", "activeStreams")
+		ka := c.fn(tr, "http2Client.keepalive")
+		wait := one(c, "cond.Wait in keepalive", callsIn(ka, CalleeX("sync", "Cond.Wait")))
+		c.MustFact(wait, "dormant-only-without-streams", CmpInt(LenOf(FieldLoad(fAct)), token.LSS, 1))
+		c.MustFact(wait, "dormant-only-without-permit-without-stream", Truth(FieldLoad(c.field("keepalive", "ClientParameters", "PermitWithoutStream")), false))
+		nT, nF := 0, 0
+		for _, st := range storesToField(ka, fDor) {
+			switch {
+			case ConstBool(true)(st.Val):
+				nT++
+				c.Dominates(st, wait, "flag-set-before-waiting")
+				c.Expect(st.Block() == wait.Block(), st, ka, "flag-set-in-the-waiting-arm", "the dormancy flag is set outside the arm that waits")
+			case ConstBool(false)(st.Val):
+				nF++
+			}
+		}
+		c.Expect(nT == 1 && nF == 1, nil, ka, "flag-set-and-cleared", "expected the dormancy flag to be set before waiting and cleared on resuming")
+		// wake-up sites
+		nSig := 0
+		for _, f := range c.scope(tr) {
+			top := shortName(topFunc(f))
+			if top != "internal/transport.http2Client.NewStream" && top != "internal/transport.http2Client.Close" {
+				continue
+			}
+			for _, sg := range callsIn(f, CalleeX("sync", "Cond.Signal")) {
+				nSig++
+				c.MustFact(sg, "signal-only-when-dormant", Truth(FieldLoad(fDor), true))
+				if len(sg.Block().Preds) == 1 {
+					test := sg.Block().Preds[0]
+					for _, su := range test.Succs {
+						if su != sg.Block() {
+							c.EnteredOnlyWhenExcept(su, "signal-skipped-only-when-not-dormant", func(p *ssa.BasicBlock) bool { return p != test }, Truth(FieldLoad(fDor), false))
+						}
+					}
+					// the test itself is on the flag alone
+					if i, ok := test.Instrs[len(test.Instrs)-1].(*ssa.If); ok {
+						c.Expect(FieldLoad(fDor)(i.Cond), sg, f, "wake-up-test-is-the-dormancy-flag-alone", "the wake-up of the dormant keepalive goroutine depends on more than the dormancy flag (a stream registered while another is being set up would not wake it)")
+					}
+				}
+			}
+		}
+		c.Expect(nSig == 2, nil, nil, "wake-up-sites", "expected the new-stream and the Close wake-up of the dormant keepalive goroutine")
+	})
 	c.Ob("keepalive-close", "R2", "sibling x2 (client, server keepalive loops): the connection is closed for a missing ack only with a ping outstanding, no timeout left, and no data read since the last check; the sleep is at most the remaining timeout and at most Time; a ping is sent only when none is outstanding", 10, func() {
 		for _, side := range []struct {
 			fn, kpT string
